@@ -113,11 +113,72 @@ def home_volume_battery(repo):
             'scenario': 'home trash on its own tmpfs volume, relative Path='}
 
 
+VARIANTS = [
+    ('plain', '[Trash Info]\nPath=/o/plain\nDeletionDate=2000-01-02T03:04:05\n'),
+    ('twopaths', '[Trash Info]\nPath=/o/first\nPath=/o/second\nDeletionDate=2000-01-02T03:04:05\n'),
+    ('twodates', '[Trash Info]\nPath=/o/twodates\nDeletionDate=2001-01-01T00:00:00\nDeletionDate=2000-01-02T03:04:05\n'),
+    ('badfirstdate', '[Trash Info]\nPath=/o/badfirst\nDeletionDate=2000-01-02T03:04:05+01:00\nDeletionDate=2000-01-02T03:04:05\n'),
+    ('noheader', 'Path=/o/noheader\nDeletionDate=2000-01-02T03:04:05\n'),
+    ('extrakeys', '[Trash Info]\nFoo=bar\nPath=/o/extra\n[Other]\nX=1\nDeletionDate=2000-01-02T03:04:05\n'),
+    ('escapes', '[Trash Info]\nPath=/o/a%20b%2Bc+d%25e\nDeletionDate=2000-01-02T03:04:05\n'),
+    ('dateonly', '[Trash Info]\nPath=/o/dateonly\nDeletionDate=2000-01-02\n'),
+    ('nodate', '[Trash Info]\nPath=/o/nodate\n'),
+    ('pathafterdate', '[Trash Info]\nDeletionDate=2000-01-02T03:04:05\nPath=/o/after\n'),
+]
+
+
+def reader_agreement_battery(repo):
+    """bounded differential: for foreign .trashinfo variants, the path/date
+    trash-list prints are what trash-restore offers, what trash-rm matches
+    and what trash-empty DAYS compares"""
+    from pyvc.scenario import Sandbox
+    problems = []
+    for name, content in VARIANTS:
+        with Sandbox(repo) as sb:
+            td = os.path.join(sb.home, '.local', 'share', 'Trash')
+            sb.add_entry(td, name, raw_info=content.encode())
+            env = {'TRASH_VOLUMES': sb.path('vol'), 'TRASH_DATE': '2020-01-01T00:00:00'}
+            lst = sb.run('trash-list', [], env=env)
+            lines = [l for l in lst['stdout'].split('\n') if l]
+            if len(lines) != 1:
+                problems.append('%s: trash-list printed %r' % (name, lines))
+                continue
+            d, t, path = lines[0].split(' ', 2)
+            rs = sb.run('trash-restore', ['/'], env=env, stdin='\n', cwd='/')
+            offered = [l.strip() for l in rs['stdout'].split('\n') if l.strip()[:1].isdigit()]
+            if len(offered) != 1:
+                problems.append('%s: trash-restore offered %r' % (name, offered))
+            else:
+                _i, rest = offered[0].split(' ', 1)
+                want_date = 'None' if d.startswith('????') else '%s %s' % (d, t)
+                if rest != '%s %s' % (want_date, path):
+                    problems.append('%s: list shows %r, restore offers %r' % (
+                        name, lines[0], offered[0]))
+            # trash-empty DAYS: purged iff the date list shows is old enough
+            em = sb.run('trash-empty', ['-f', '30'], env=env)
+            gone = 'info/%s.trashinfo' % name not in sb.snapshot(td)
+            old = not d.startswith('????') and d < '2019-12-02'
+            if gone != old:
+                problems.append('%s: list date %s %s but trash-empty 30 purged=%s'
+                                % (name, d, t, gone))
+            if not gone:
+                rm = sb.run('trash-rm', [path], env=env)
+                if 'info/%s.trashinfo' % name in sb.snapshot(td):
+                    problems.append('%s: trash-rm %r did not match the path '
+                                    'trash-list shows' % (name, path))
+    return {'confirmed': bool(problems), 'problems': problems[:10]}
+
+
+def _battery(S, r, o):
+    return reader_agreement_battery(S.interp.repo)
+
+
 def _home(S, r, o):
     return home_volume_battery(S.interp.repo)
 
 
-REPLAYERS = {'restore-home/home-trash-base-agrees-with-the-scanner': _home}
+REPLAYERS = {'restore-home/home-trash-base-agrees-with-the-scanner': _home,
+             '': _battery}
 
 
 def kf_home_on_own_volume(terms):
